@@ -122,6 +122,7 @@ type scenario struct {
 	Tgt    string   `json:"tgt"`    // reg | dir
 	Gzip   int      `json:"gzip"`   // export with ImageWithExportCompress; re-packed archive gzip compressed
 	XRef   int      `json:"xref"`   // export under another name (ImageWithExportRef)
+	XN     string   `json:"xn"`     // the export name carries: tag | dig | tagdig
 	DkGz   int      `json:"dkgz"`   // Docker-save archive with gzip compressed layers
 	Origin string   `json:"origin"` // which generator run made it
 }
@@ -213,10 +214,13 @@ func main() {
 			fail(fmt.Errorf("scenario %s: no catalogue record for %v", s.ID, s.Sid))
 		}
 		var key string
-		if c.Kind == "docker" {
+		if s.XN == "" {
+			s.XN = "tag"
+		}
+		if c.Kind == "docker" && c.Lp != "dkrest" {
 			key = fmt.Sprintf("dk/%s/%s/gz%d", c.G, c.Sel.By, s.DkGz)
 		} else {
-			key = fmt.Sprintf("oci/%s/%s/gz%d/x%d", c.G, s.Src, s.Gzip, s.XRef)
+			key = fmt.Sprintf("oci/%s/%s/gz%d/x%d/%s", c.G, s.Src, s.Gzip, s.XRef, s.XN)
 		}
 		g := byKey[key]
 		if g == nil {
@@ -235,7 +239,7 @@ func main() {
 	for _, g := range groups {
 		c := d.cat[sidKey(g.scns[0].Sid)]
 		var blocks []*blockOut
-		if c.Kind == "docker" {
+		if c.Kind == "docker" && c.Lp != "dkrest" {
 			blocks, err = d.runDocker(g.key, g.scns)
 		} else {
 			blocks, err = d.runOCI(g.key, g.scns)
@@ -533,6 +537,8 @@ type export struct {
 	raw     []byte // the stream as written
 	entries []tarEntry
 	ok      bool
+	// dockerName is the name:tag a Docker format import of the archive selects the image by ("" unknown)
+	dockerName string
 }
 
 func (d *driver) runOCI(key string, scns []*scenario) ([]*blockOut, error) {
@@ -583,27 +589,52 @@ func (d *driver) runOCI(key string, scns []*scenario) ([]*blockOut, error) {
 			return nil, fmt.Errorf("source tag %s does not name %s", root.Tag, root.N)
 		}
 		b := &blockOut{Block: fmt.Sprintf("%s#%d", key, ri+1), Kind: "oci", Traces: []*traceOut{}, Meta: map[string]any{"graph": c0.G, "root": root.N}}
+		// the name the image is exported under carries a tag, a digest or both (xn); it is the source
+		// reference, or the override given with ImageWithExportRef (the source is then named by tag)
+		suffix := func(tag, xn string) string {
+			switch xn {
+			case "dig":
+				return "@" + top
+			case "tagdig":
+				return ":" + tag + "@" + top
+			}
+			return ":" + tag
+		}
+		srcXN := s0.XN
+		if s0.XRef == 1 {
+			srcXN = "tag"
+		}
 		var rs ref.Ref
 		if s0.Src == "reg" {
-			rs, err = ref.New(fmt.Sprintf("%s/%s:%s", srcHost, srcRepo, root.Tag))
+			rs, err = ref.New(fmt.Sprintf("%s/%s%s", srcHost, srcRepo, suffix(root.Tag, srcXN)))
 		} else {
-			rs, err = ref.New(fmt.Sprintf("ocidir://%s:%s", srcDir, root.Tag))
+			rs, err = ref.New(fmt.Sprintf("ocidir://%s%s", srcDir, suffix(root.Tag, srcXN)))
 		}
 		if err != nil {
 			return nil, err
 		}
-		xtag := root.Tag
+		xtag, xbase := root.Tag, srcHost+"/"+srcRepo
 		var opts []regclient.ImageOpts
 		if s0.Gzip == 1 {
 			opts = append(opts, regclient.ImageWithExportCompress())
 		}
 		if s0.XRef == 1 {
-			xtag = "ov-" + root.Tag
-			xr, err := ref.New("registry.example.test/over/ride:" + xtag)
+			xtag, xbase = "ov-"+root.Tag, "registry.example.test/over/ride"
+			xr, err := ref.New(xbase + suffix(xtag, s0.XN))
 			if err != nil {
 				return nil, err
 			}
 			opts = append(opts, regclient.ImageWithExportRef(xr))
+		}
+		// the plain name:tag docker knows the image by ("latest" when the export name has no tag, as the
+		// documentation of ImageExport says); not predictable for a layout source without override
+		dockerName := xbase + ":" + xtag
+		if s0.XN == "dig" {
+			xtag = ""
+			dockerName = xbase + ":latest"
+		}
+		if s0.Src == "dir" && s0.XRef == 0 {
+			dockerName = ""
 		}
 		src := vtrace.Event{"ev": "src", "block": b.Block, "top": top, "tag": xtag, "single": b2i(st.isSingleImage(top))}
 		objEvent(src, st.objList())
@@ -616,7 +647,7 @@ func (d *driver) runOCI(key string, scns []*scenario) ([]*blockOut, error) {
 
 		var buf bytes.Buffer
 		xerr := e.rc.ImageExport(context.Background(), rs, &buf, opts...)
-		ex := &export{root: root, top: top, tag: xtag, raw: buf.Bytes(), ok: xerr == nil}
+		ex := &export{root: root, top: top, tag: xtag, raw: buf.Bytes(), ok: xerr == nil, dockerName: dockerName}
 		tev, entries, aerr := auditTar(buf.Bytes())
 		if aerr != nil && xerr == nil {
 			// the stream of a successful export cannot be read as a tar archive: recorded as an
@@ -654,10 +685,18 @@ func (d *driver) runOCI(key string, scns []*scenario) ([]*blockOut, error) {
 	if err != nil {
 		last.Meta["merge_error"] = err.Error()
 	}
+	var rest []*scenario
 	for _, s := range scns {
 		c := d.cat[sidKey(s.Sid)]
+		if c.Lp == "dkrest" {
+			rest = append(rest, s)
+			continue
+		}
 		t := d.importOCI(e, g, c, s, exports, pool)
 		last.Traces = append(last.Traces, t)
+	}
+	if len(rest) > 0 {
+		blocks = append(blocks, d.importDockerRest(e, key, g, exports[0], pool, rest))
 	}
 	return blocks, nil
 }
